@@ -6,6 +6,7 @@
 #include "../fw/ledger.h"
 #include "../fw/sched.h"
 #include <eventpp/eventdispatcher.h>
+#include <eventpp/eventqueue.h>
 #include <map>
 #include <unordered_map>
 
@@ -63,10 +64,11 @@ static const char * catName(int c) { static const char * n[] = {"lvalues", "cons
 
 // ------------------------------------------------------------------ one cell
 // KP: how the prototype takes the key (K or const K&); PP: payload (Tracked, const Tracked&, Tracked&)
-template <typename K, typename KP, typename PP, typename Policies, bool CustomGetEvent>
+// IsQueue: the same programs through EventQueue (enqueue in the given value categories, then process)
+template <typename K, typename KP, typename PP, typename Policies, bool CustomGetEvent, bool IsQueue = false>
 struct Cell {
 	typedef typename std::conditional<CustomGetEvent, void(PP), void(KP, PP)>::type Prototype;
-	typedef eventpp::EventDispatcher<K, Prototype, Policies> D;
+	typedef typename std::conditional<IsQueue, eventpp::EventQueue<K, Prototype, Policies>, eventpp::EventDispatcher<K, Prototype, Policies> >::type D;
 	typedef typename D::Handle Handle;
 	typedef typename Policies::ArgumentPassingMode Mode;
 	static const bool payloadIsMutableRef = std::is_same<PP, Tracked &>::value;
@@ -97,8 +99,10 @@ struct Cell {
 	}
 
 	// ---- the three call forms
-	template <typename KK, typename PV> void callInclude(KK && k, PV && p) { d->dispatch(std::forward<KK>(k), std::forward<PV>(p)); }
-	template <typename KK, typename K2, typename PV> void callExclude(KK && ev, K2 && k2, PV && p) { d->dispatch(std::forward<KK>(ev), std::forward<K2>(k2), std::forward<PV>(p)); }
+	template <typename KK, typename PV> void callInclude(KK && k, PV && p) { send(std::integral_constant<bool, IsQueue>(), std::forward<KK>(k), std::forward<PV>(p)); }
+	template <typename KK, typename K2, typename PV> void callExclude(KK && ev, K2 && k2, PV && p) { send(std::integral_constant<bool, IsQueue>(), std::forward<KK>(ev), std::forward<K2>(k2), std::forward<PV>(p)); }
+	template <typename ...A> void send(std::false_type, A && ...a) { d->dispatch(std::forward<A>(a)...); }
+	template <typename ...A> void send(std::true_type, A && ...a) { d->enqueue(std::forward<A>(a)...); if(!d->process()) gctx()->fail("enqueued-event-not-processed", "process() returned false right after enqueue"); }
 
 	template <bool Excl>
 	void doDispatchForm(int ki, int cat, std::true_type /*custom getEvent*/) {
@@ -111,7 +115,7 @@ struct Cell {
 		this->check(seen, ki, pid, -2, "dispatch(payload) with a getEvent policy", cat);
 		if((cat == C_LVALUE || cat == C_KEY_PRVALUE_PAYLOAD_LVALUE || payloadIsMutableRef) && !lv.intact()) ctx.fail("caller-lvalue-modified", "the caller's payload lvalue was modified or moved from by dispatch");
 	}
-	template <typename PV> void callOne(PV && p) { d->dispatch(std::forward<PV>(p)); }
+	template <typename PV> void callOne(PV && p) { send(std::integral_constant<bool, IsQueue>(), std::forward<PV>(p)); }
 	template <typename F> void withPayload(int pc, Tracked & lv, const Tracked & clv, int pid, F f) { withPayloadImpl(pc, lv, clv, pid, f, std::integral_constant<bool, payloadIsMutableRef>()); }
 	template <typename F> void withPayloadImpl(int, Tracked & lv, const Tracked &, int, F f, std::true_type) { f(lv); }
 	template <typename F> void withPayloadImpl(int pc, Tracked & lv, const Tracked & clv, int pid, F f, std::false_type) {
@@ -240,6 +244,20 @@ static void addCell(const std::string & name, int dq, int dt) {
 }
 
 template <typename K, bool Hashed>
+static void addQueueFamily(bool full) {
+	using namespace eventpp;
+	std::string kn = std::string("C05/keys/") + KeyOps<K>::name();
+	const int dq = 3, dt = 4;
+	addCell<Cell<K, K, Tracked, Pol<ArgumentPassingAutoDetect, false, Hashed>, false, true> >(kn + "/key-by-value/payload-by-value/auto/default-map", dq, dt);
+	addCell<Cell<K, const K &, const Tracked &, Pol<ArgumentPassingIncludeEvent, true, Hashed>, false, true> >(kn + "/key-const-ref/payload-const-ref/include/user-map", dq, dt);
+	addCell<Cell<K, K, Tracked, PolGetEvent<K, false, Hashed>, true, true> >(kn + "/getEvent-policy/payload-by-value/default-map", dq, dt);
+	if(!full) return;
+	addCell<Cell<K, K, const Tracked &, Pol<ArgumentPassingExcludeEvent, false, Hashed>, false, true> >(kn + "/key-by-value/payload-const-ref/exclude/default-map", dq, dt);
+	addCell<Cell<K, const K &, Tracked, Pol<ArgumentPassingAutoDetect, true, Hashed>, false, true> >(kn + "/key-const-ref/payload-by-value/auto/user-map", dq, dt);
+	addCell<Cell<K, K, const Tracked &, PolGetEvent<K, true, Hashed>, true, true> >(kn + "/getEvent-policy/payload-const-ref/user-map", dq, dt);
+}
+
+template <typename K, bool Hashed>
 static void addKeyFamily(bool full) {
 	using namespace eventpp;
 	std::string kn = std::string("C04/") + KeyOps<K>::name();
@@ -270,20 +288,25 @@ static void addKeyFamily(bool full) {
 #define SEL(s) (VERIF_SUB < 0 || VERIF_SUB == (s))
 static struct Register {
 	Register() {
+#ifdef VERIF_QUEUE
+#define FAMILY addQueueFamily
+#else
+#define FAMILY addKeyFamily
+#endif
 #if SEL(0)
-		addKeyFamily<int, true>(VERIF_FULL);
+		FAMILY<int, true>(VERIF_FULL);
 #endif
 #if SEL(1)
-		addKeyFamily<EK, true>(VERIF_FULL);
+		FAMILY<EK, true>(VERIF_FULL);
 #endif
 #if SEL(2)
-		addKeyFamily<std::string, true>(VERIF_FULL);
+		FAMILY<std::string, true>(VERIF_FULL);
 #endif
 #if SEL(3)
-		addKeyFamily<OrdKey, false>(VERIF_FULL);
+		FAMILY<OrdKey, false>(VERIF_FULL);
 #endif
 #if SEL(4)
-		addKeyFamily<HashKey, true>(VERIF_FULL);
+		FAMILY<HashKey, true>(VERIF_FULL);
 #endif
 	}
 } reg;
